@@ -1512,3 +1512,31 @@ def copy_copy(E, args, node):
     if v is None or isinstance(v, (int, float, str, bool, Z, X)):
         return v
     raise Unsupported('copy of %r' % (v,))
+
+
+@libfn('numpy.arange')
+def np_arange(E, args, node):
+    p = args.pos
+    if len(p) == 1:
+        lo, hi, st = 0, p[0], 1
+    elif len(p) == 2:
+        lo, hi, st = p[0], p[1], 1
+    else:
+        lo, hi, st = p[0], p[1], p[2]
+    vals = [lift(v) for v in (lo, hi, st)]
+    if not all(v.ty in (INT, BOOL) for v in vals):
+        raise Unsupported('float arange')
+    lo_t, hi_t, st_t = [to_int(v) for v in vals]
+    if not E.spec_mode:
+        E.oblige('lib-pre', st_t > 0, node, 'positive arange step')
+    n = z3.If(hi_t > lo_t, (hi_t - lo_t + st_t - 1) / st_t, z3.IntVal(0))
+    return E.new_arr(z3.simplify(n), INT, lambda i: Z(lo_t + i * st_t, INT))
+
+
+@method('Frame.reset_index')
+def frame_reset_index(E, f, args, node):
+    """row labels are not modelled (tables are indexed by position): a no-op on the contents"""
+    if args.kw.get('inplace', False) is True:
+        E.mutate(f.ident, node, 'reset_index(inplace=True)')
+        return None
+    return frame_copy(E, f, args, node)
